@@ -77,10 +77,10 @@ func cmpInstances(c *core.Ctx) []cmpInstance {
 				return o > 0
 			}, doc: "min/max pair: reject iff min > max, or min >= max when either bound is exclusive"},
 		{fn: "(notations/jschema/loader.schemaCompiler).checkMinLengthAndMaxLength", a: nodeC("MinLengthConstraintType"), b: nodeC("MaxLengthConstraintType"),
-			fixed: present("MinLengthConstraintType", "MaxLengthConstraintType"),
+			fixed:  present("MinLengthConstraintType", "MaxLengthConstraintType"),
 			reject: func(o int, v map[string]bool) bool { return o > 0 }, doc: "minLength/maxLength pair: reject iff minLength > maxLength"},
 		{fn: "(notations/jschema/loader.schemaCompiler).checkMinItemsAndMaxItems", a: nodeC("MinItemsConstraintType"), b: nodeC("MaxItemsConstraintType"),
-			fixed: present("MinItemsConstraintType", "MaxItemsConstraintType"),
+			fixed:  present("MinItemsConstraintType", "MaxItemsConstraintType"),
 			reject: func(o int, v map[string]bool) bool { return o > 0 }, doc: "minItems/maxItems pair: reject iff minItems > maxItems"},
 	}
 }
